@@ -369,6 +369,12 @@ class ReceiverSuite(Suite):
         remote = {j: rng.randint(0, 50) for j in peers}
         ops = []
         n_ops = rng.randint(1, max_ops)
+        if rng.random() < 0.85:
+            # the local instance passes its own handshake first (remote ticks are ignored before that)
+            ops += [('Tick', me, remote[me], now + 1), ('Auth', me, True, now + 2, now + 2)]
+            now += 2
+            st[me] = 'D'
+            chk[me] = now - 1
 
         def pick_state(j, k):
             if (j, k) in last and rng.random() < 0.6:
@@ -752,6 +758,15 @@ W_LOCAL = ([(1, [(7, 'STOPPED', True)])], [
     ('Notify', 1), ('Notify', 1), ('ActivateAt', 1)])
 
 
+W_CLEAN = (W_TRUTHS, _admit_self(1) + _admit_self(2) + _admit(2, 1) + _admit(1, 2) + [
+    ('LocalChange', 2, 7, 'STOPPING', True), ('Deliver', 2, 1), ('LocalChange', 2, 7, 'STOPPED', True),
+    ('Deliver', 2, 1)])
+# Replication proofs: stopping_membership_differs
+W_STOPPING = ([(1, []), (2, [(7, 'RUNNING', True)]), (3, [])],
+              _admit_self(1) + _admit_self(2) + _admit_self(3) + _admit(2, 1) + _admit(1, 2) + _admit(2, 3) + [
+    ('LocalChange', 2, 7, 'STOPPING', True), ('Deliver', 2, 1), ('Deliver', 2, 3)] + _admit(3, 2))
+
+
 class ClusterSuite(Suite):
     name = 'cluster'
     prelude = 'From Sup Require Import Replication.\nOpen Scope Z_scope.'
@@ -761,7 +776,7 @@ class ClusterSuite(Suite):
     shard_size = 100
 
     def corpus(self):
-        return [W_RECEIVER, W_SENDER, W_LOCAL]
+        return [W_RECEIVER, W_SENDER, W_LOCAL, W_CLEAN, W_STOPPING]
 
     # ---------------- generation: a scheduler with a rough picture of the protocol state (bias only)
     def gen_case(self, rng, max_actions, mode):
@@ -814,13 +829,13 @@ class ClusterSuite(Suite):
                         if careful and window:
                             continue
                         cands.append(('LocalChange', i, k, None, None))
-                if not careful:
-                    for j in ids:
-                        for i in ids:
-                            if i != j and adm[(j, i)] in ('K', 'D', 'R') and rng.random() < 0.08:
-                                cands.append(('Fail', j, i))
-                            if i != j and out[(i, j)] and rng.random() < 0.05:
-                                cands.append(('Drop', i, j))
+                for j in ids:
+                    for i in ids:
+                        # j loses sight of i (partition / crash detected) and will handshake again
+                        if i != j and adm[(j, i)] in ('K', 'D', 'R') and rng.random() < (0.10 if careful else 0.25):
+                            cands += [('Fail', j, i)] * 2
+                        if not careful and i != j and out[(i, j)] and rng.random() < 0.2:
+                            cands += [('Drop', i, j)] * 2
             if not cands:
                 break
             a = rng.choice(cands)
